@@ -163,6 +163,35 @@ def minseg_tie(d, m):
     return None
 
 
+def moved_cases(rng):
+    """structures whose final geometry comes out of the transformation options: a wire written somewhere else and moved
+    onto the end of another one by a per-object translation / rotation, or written touching and moved away; judged on the
+    final geometry (segment tables) alone"""
+    out = []
+    g = lambda v: ','.join('%.17g' % x for x in v)
+    for k in range(8):
+        h = rng.choice([2.0, 5.0])
+        d = [rng.choice([1.0, -2.0, 0.5, 3.0]) for _ in range(3)]
+        kind = rng.choice(['join', 'leave', 'join-star', 'rotate-join'])
+        a = ['-w', '1,3,0,0,0,0,0,%g,.001' % h]
+        if kind == 'join':
+            w2 = [d[0], d[1], h + d[2], d[0] + 1.0, d[1], 2 * h + d[2]]
+            argv = a + ['-w', '2,4,%s,.001' % g(w2), '--geo-translate=1,%s,2' % g([-d[0], -d[1], -d[2]])]
+        elif kind == 'leave':
+            w2 = [0, 0, h, 1.0, 0.5, 2 * h]
+            argv = a + ['-w', '2,4,%s,.001' % g(w2), '--geo-translate=1,%s,2' % g(d)]
+        elif kind == 'join-star':
+            w2 = [d[0], d[1], h + d[2], d[0] + 1.0, d[1], 2 * h + d[2]]
+            w3 = [0, 0, h, -1.0, 1.0, h + 1.0]
+            argv = a + ['-w', '2,4,%s,.001' % g(w2), '-w', '3,2,%s,.001' % g(w3), '--geo-translate=1,%s,2' % g([-d[0], -d[1], -d[2]])]
+        else:
+            # wire 2 along x from the origin's top, written rotated by a quarter turn and turned back
+            w2 = [0, 0, h, 0.0, 2.0, h]
+            argv = a + ['-w', '2,4,%s,.001' % g(w2), '--geo-rotate=1,0,0,90,2']
+        out.append((kind, ['-f', '10', '--excitation-pulse=1'] + argv))
+    return out
+
+
 def tapered_cases(rng):
     """a tapered wire (from end 1, from end 2, from both ends) and a second wire that starts 0.5 or 3 joining
     tolerances from one of its ends: the tolerance is 1/1000 of the *shortest* segment, wherever that segment is"""
@@ -191,6 +220,12 @@ def tapered_cases(rng):
 
 
 def replay(rp):
+    if rp.get('kind') == 'moved':
+        from common import run_main
+        mm = run_main(rp['argv'], want_mininec=True)['m']
+        bad = topo.pulse_geometry_bad(mm) or property_on_impl(topo.observe_impl(mm))
+        print('replay', rp['argv'], '->', bad or 'property holds')
+        return 1 if bad else 0
     if rp.get('kind') == 'tapered':
         import random
         from mininec.mininec import Mininec
@@ -268,6 +303,19 @@ def run(ck):
         bad = topo.pulse_geometry_bad(m) or property_on_impl(obs)
         if bad:
             ck.violation(dict(kind='curved', name=name, observed=bad))
+            return
+    from common import run_main
+    for kind, argv in moved_cases(ck.rng):
+        r = run_main(argv, want_mininec=True)
+        if r['m'] is None:
+            ck.count('moved_rejected')
+            continue
+        mm = r['m']
+        ck.case(('moved', kind, tuple(argv)), True)
+        ck.count('moved_cases')
+        bad = topo.pulse_geometry_bad(mm) or property_on_impl(topo.observe_impl(mm))
+        if bad:
+            ck.violation(dict(kind='moved', argv=argv, observed=bad))
             return
     import random
     tseed = ck.rng.randrange(10 ** 9)
